@@ -159,7 +159,13 @@ def metric_spec(draw, forms=("named", "precomputed", "randdist"), names=None):
 
 def needs_nonneg(aspec):
     return aspec is not None and aspec["fam"] == "kernel" and aspec["name"] in NONNEG_KERNELS \
-        and aspec["form"] in ("named", "callable", "precomputed")
+        and aspec["form"] in ("named", "callable", "precomputed", "sk_callable")
+
+
+def sk_function(aspec):
+    """scikit-learn's own pairwise function object for the name (what a user imports and passes as a callable)"""
+    from sklearn.metrics.pairwise import PAIRWISE_DISTANCE_FUNCTIONS, PAIRWISE_KERNEL_FUNCTIONS
+    return (PAIRWISE_KERNEL_FUNCTIONS if aspec["fam"] == "kernel" else PAIRWISE_DISTANCE_FUNCTIONS)[aspec["name"]]
 
 
 def ref_affinity(aspec, X):
@@ -172,6 +178,9 @@ def ref_affinity(aspec, X):
     if aspec["form"] == "indef":
         A = rs.randn(n, n)
         return np.ascontiguousarray((A + A.T) / 2)
+    if aspec["form"] == "sk_callable":
+        # parameters handed over next to a callable are documented as ignored: the callable's own defaults apply
+        return np.ascontiguousarray(sk_function(aspec)(X), dtype=np.float64)
     if aspec["form"] == "foreign":
         # a matrix that has nothing to do with the kernel / metric the objective was constructed with: evaluate() takes any
         # affinity (symmetric cost with zero diagonal that violates the triangle inequality / indefinite similarity)
@@ -219,6 +228,9 @@ def group_containers(groups, seed):
     for g in groups:
         g = [int(i) for i in g]
         c = rs.randint(5)
+        if len(g) == 0:
+            out.append(g if c != 1 else np.zeros(0, dtype=np.int64))
+            continue
         steps = set(np.diff(g).tolist()) if len(g) >= 2 else {1}
         if c >= 3 and len(steps) == 1 and 0 not in steps:
             st_ = steps.pop()
